@@ -8,6 +8,8 @@ use std::fmt::{Debug, Formatter};
 use serde::{Deserialize, Serialize};
 
 pub mod impls;
+#[cfg(feature = "verif-hooks")]
+pub mod verif;
 
 use crate::impls::index::IndexContainer;
 pub use impls::columns::ColumnsRegion;
